@@ -4,6 +4,7 @@
 #include "../core/proc.hpp"
 #include "iosim.hpp"
 #include <algorithm>
+#include <map>
 #include <cstdio>
 #include <cstring>
 
@@ -245,6 +246,76 @@ static Json gen_trunc(uint64_t seed, long i, std::vector<TruncBase> const& bases
     }
     return Json();
 }
+// every header field x every boundary value x every entry point (device by hash, or all devices): index -> plan
+static std::vector<std::string> entries_of(Format* f)
+{
+    std::vector<std::string> e = {"info", "read_image", "read_view", "rci", "rcv"};
+    if (f->has_scanline) e.push_back("scanline");
+    if (f->has_any) e.push_back("any");
+    return e;
+}
+static constexpr long N_BOUNDARY = 15; // size of boundary_values()
+static long fields_span(TruncBase const& tb, bool all_devs)
+{
+    // cached per base (the generator is called once per plan)
+    static std::map<std::pair<TruncBase const*, bool>, long> cache;
+    auto it = cache.find({&tb, all_devs});
+    if (it != cache.end()) return it->second;
+    auto flds = tb.f->fields ? tb.f->fields(tb.bytes) : std::vector<Field>();
+    long span = (long)flds.size() * N_BOUNDARY * (long)entries_of(tb.f).size() * (all_devs ? (long)tb.f->devices.size() : 1);
+    cache[{&tb, all_devs}] = span;
+    return span;
+}
+static long fields_total(std::vector<TruncBase> const& bases, bool all_devs)
+{
+    long t = 0;
+    for (auto const& tb : bases) t += fields_span(tb, all_devs);
+    return t;
+}
+static Json gen_fields(uint64_t seed, long i, std::vector<TruncBase> const& bases, bool all_devs)
+{
+    long rem = i;
+    for (size_t b = 0; b < bases.size(); ++b)
+    {
+        TruncBase const& tb = bases[b];
+        long span = fields_span(tb, all_devs);
+        if (rem >= span) { rem -= span; continue; }
+        auto entries = entries_of(tb.f);
+        long ndev = all_devs ? (long)tb.f->devices.size() : 1;
+        long combo = rem % ((long)entries.size() * ndev); rem /= ((long)entries.size() * ndev);
+        auto flds = tb.f->fields(tb.bytes);
+        Rng r(mix(seed ^ 0xF1E1D, (uint64_t)i));
+        for (auto const& fd : flds)
+        {
+            uint64_t cur = 0;
+            for (int k = 0; k < fd.width && fd.off + (size_t)k < tb.bytes.size(); ++k)
+                cur |= (uint64_t)tb.bytes[fd.off + (size_t)k] << (fd.be ? 8 * (fd.width - 1 - k) : 8 * k);
+            if (rem >= N_BOUNDARY) { rem -= N_BOUNDARY; continue; }
+            Json bv = boundary_values(fd.width, cur);
+            Json p = Json::object();
+            p.set("engine", "iosim"); p.set("mode", "c11"); p.set("index", (long long)i); p.set("enum", "fields");
+            p.set("fmt", tb.f->name); p.set("variant", tb.v.name); p.set("w", tb.w); p.set("h", tb.h); p.set("cseed", 1000);
+            std::string e = entries[(size_t)(combo % (long)entries.size())];
+            std::string dev = all_devs ? tb.f->devices[(size_t)(combo / (long)entries.size())] : r.pick(tb.f->devices);
+            p.set("entry", e);
+            p.set("type", (e == "rci" || e == "rcv") ? tb.f->convert_types[r.below(tb.f->convert_types.size())] : tb.v.native);
+            p.set("dev", dev);
+            p.set("sched", r.pick({"full", "full", "one", "half"}));
+            p.set("bufsz", r.pick({-1, 0, 7, 4096}));
+            p.set("showmany", r.pick({0, 1, -1}));
+            Json ops = Json::array(); Json o = Json::object();
+            o.set("f", "set"); o.set("field", fd.name); o.set("off", (long long)fd.off); o.set("width", fd.width); o.set("be", fd.be ? 1 : 0);
+            o.set("val", bv.a[(size_t)rem]);
+            ops.push(o);
+            if (tb.f->name == "png") { Json c = Json::object(); c.set("f", "pngcrc"); ops.push(c); }
+            p.set("ops", ops);
+            return p;
+        }
+        return Json();
+    }
+    return Json();
+}
+
 static long trunc_total(std::vector<TruncBase> const& bases, bool all_combos)
 {
     long t = 0;
@@ -327,7 +398,11 @@ static Json result_json(RunResult const& rr)
     if (rr.o.cls.compare(0, 10, "violation:") == 0)
     {
         Json v = Json::object();
-        v.set("cls", rr.o.cls.substr(10)); v.set("site", rr.cfg); v.set("detail", rr.o.what);
+        // site: format + mode (+ the path kind for C13); the file variant is part of the config, not of the site,
+        // so that one defect seen through many variants is triaged once
+        std::string site = rr.cfg.substr(0, rr.cfg.find('/')) + rr.cfg.substr(rr.cfg.rfind('/'));
+        if (!rr.o.what.empty() && rr.o.what[0] == '[') site += ":" + rr.o.what.substr(0, rr.o.what.find(']') + 1);
+        v.set("cls", rr.o.cls.substr(10)); v.set("site", site); v.set("detail", rr.o.what);
         j.set("violation", v);
     }
     return j;
@@ -339,7 +414,7 @@ using namespace sim;
 
 static void usage()
 {
-    fprintf(stderr, "iosim --list | --gen I | --count | --replay FILE | --worker --range A:B   [--mode c11|trunc|truncall|c12|c13] [--seed S] [--formats a,b]\n");
+    fprintf(stderr, "iosim --list | --gen I | --count | --replay FILE | --worker --range A:B   [--mode c11|trunc|truncall|fields|fieldsall|c12|c13] [--seed S] [--formats a,b]\n");
     exit(2);
 }
 
@@ -383,11 +458,13 @@ int main(int argc, char** argv)
     Disk gen_disk; // generation of base files needs a disk for the pristine channels
     std::vector<TruncBase> bases;
     bool trunc_mode = mode == "trunc" || mode == "truncall";
-    if (trunc_mode) { disk() = &gen_disk; bases = trunc_bases(seed, fmts, mode == "truncall" ? 2 : 1); disk() = nullptr; }
+    bool fields_mode = mode == "fields" || mode == "fieldsall";
+    if (trunc_mode || fields_mode) { disk() = &gen_disk; bases = trunc_bases(seed, fmts, (mode == "truncall" || mode == "fieldsall") ? 2 : 1); disk() = nullptr; }
     auto make_plan = [&](long i) -> Json {
         disk() = &gen_disk;
         Json p;
         if (trunc_mode) p = gen_trunc(seed, i, bases, mode == "truncall");
+        else if (fields_mode) p = gen_fields(seed, i, bases, mode == "fieldsall");
         else if (mode == "c11") p = gen_c11(seed, i, fmts);
         else if (mode == "c12") p = gen_c12(seed, i, fmts);
         else if (mode == "c13") p = gen_c13(seed, i, fmts);
@@ -395,7 +472,7 @@ int main(int argc, char** argv)
         gen_disk.chans.clear();
         return p;
     };
-    if (act == "count") { printf("%ld\n", trunc_mode ? trunc_total(bases, mode == "truncall") : -1L); return 0; }
+    if (act == "count") { printf("%ld\n", trunc_mode ? trunc_total(bases, mode == "truncall") : fields_mode ? fields_total(bases, mode == "fieldsall") : -1L); return 0; }
     if (act == "gen") { printf("%s\n", make_plan(gen_i).dump().c_str()); return 0; }
     if (act == "dump")
     {
